@@ -58,7 +58,9 @@ CHECKS = {
              "reader invariants over every generated table (LineTablesMC.tla), exports the tables, which are replayed into xdis portable code "
              "objects of each era and into the CPython of the era, and judges (LineTablesTrace.tla) findlinestarts order and values, offset2line "
              "queries, co_lines() ranges and the instruction stream's starts_line for every code object of the corpus and of modules compiled "
-             "by all nine interpreters. CPython's own answers are validated against the same spec in every run.",
+             "by all nine interpreters. Generated tables are instantiated under the opcode tables at both ends of every era and their PyPy "
+             "variants (all 39 tables in the thorough tier); the first code objects of every file are read a second time after "
+             "replace(co_firstlineno=+100). CPython's own answers are validated against the same spec in every run.",
         design_ref="DESIGN.md section 5 C05, specs S4 S6",
         note="Well-formedness assumed of tables: positive lines, range tables cover the code, pre-3.8 lnotab entries stay inside the code. "
              "Known finding: Bytecode's dup_lines=True default (see known_findings.json).",
@@ -70,7 +72,8 @@ CHECKS = {
              "judged per code unit against Code311.co_lines()/co_positions(). Exception table: ExcTable.tla (big-endian 6-bit varints, four fields) "
              "model-checked with its writer (ExcTableMC.tla round trip, truncated prefixes) and used as judge (ExcTableTrace.tla) for "
              "parse_exception_table, Bytecode.exception_entries and format_exception_table rows, on generated tables (every field at varint "
-             "lengths 1-3, padded encodings) and on all 3.11-3.13 code objects of corpus and producers; CPython 3.11-3.13 validate both specs.",
+             "lengths 1-3, padded encodings) and on all 3.11-3.13 code objects of corpus and producers, whose 'ExceptionTable:' sections in the "
+             "real listing are matched to their code objects as well; CPython 3.11-3.13 validate both specs.",
         design_ref="DESIGN.md section 5 C17, specs S5 S6",
         note="co_lines() is compared per code unit (3.11 and 3.12 partition ranges differently). Trusted: TLC, projections (rec_lines.py, rec_exc.py).",
         technique="TLA+ varint/entry reader machines; TLC model checking of writer+reader, behaviours replayed into xdis and CPython, trace validation",
@@ -97,7 +100,8 @@ CHECKS = {
              "each stream is placed in co_consts of a code object of each bytecode-version class, loaded by xdis and judged by the reference "
              "reader; the same streams are loaded by CPython 2.7 / 3.x and judged by the same reader.",
         design_ref="DESIGN.md section 5 C10, spec S1",
-        note="Budget: <= 3 tokens per stream, nesting depth 2 (thorough: richer alphabet). No unordered container inside another. Identity of shared "
+        note="Budget: <= 3 tokens per stream, nesting depth 2, plus a reduced alphabet at budget 5 / depth 3 for sharing patterns (thorough: richer alphabet). "
+             "No unordered container inside another. Identity of shared "
              "objects not compared, equality at every reference site is.",
         technique="TLA+ marshal writer enumerated exhaustively by TLC; behaviours replayed into xdis and CPython; TLC reference reader as judge",
     ),
@@ -130,17 +134,18 @@ CHECKS = {
              "_classify_pyc/_validate_* (3.7-3.13) must accept the fields the spec extracted; real py_compile output of all nine interpreters in "
              "every invalidation mode is judged too.",
         design_ref="DESIGN.md section 5 C06, spec S2",
-        note="Interim (pre-release) magics are not generated. PyPy header forms as observed in the corpus.",
+        note="Interim (pre-release) magics are not generated. PyPy header forms as observed in the corpus; every PyPy magic xdis accepts is generated. "
+             "Named deviation: the PyPy 3.2 file magic 48 is reported as 3187 (load.py).",
         technique="TLC exhaustive enumeration of header forms, behaviours replayed into load_module, TLC trace judge; importlib validators as oracle",
     ),
     "C09": dict(
         category="model_checking",
-        text="Spec S8. OpTables.tla: the 39 tables xdis hands out x 256 opcode numbers as a state space; TLC checks 12 invariants in every state: "
-             "names<->numbers bijection, categorised opcodes defined and operand-taking unless CPython's table has the same gap, jrel/jabs disjoint, "
+        text="Spec S8. OpTables.tla: the 39 tables xdis hands out x 256 opcode numbers as a state space; TLC checks 14 invariants in every state: "
+             "names<->numbers bijection, the frozen category sets the decoder consults = the published has* lists, categorised opcodes defined and operand-taking unless CPython's table has the same gap, jrel/jabs disjoint, "
              "EXTENDED_ARG and its shift, and equality with the live opcode module of the nine installed interpreters (names, HAVE_ARGUMENT/hasarg, "
              "seven category sets). OpTablesTrace.tla replays the recorded derivation of every table (init/def/rm/finalize, hook H2) on an abstract "
              "table: each logged edit must be a step of the model, rm must remove a current pair, finalize must find a bijection. S14: every corpus "
-             "code object is judged by BytecodeTrace.tla under xdis's table of its version (tiling, target alignment, operand index ranges) - the "
+             "code object is judged by BytecodeTrace.tla under xdis's table of its version (tiling, target alignment, operand index ranges, only defined opcodes occur) - the "
              "only oracle for versions without an interpreter.",
         design_ref="DESIGN.md section 5 C09, specs S8 S14",
         note="For 1.0-2.6, 3.0-3.5, PyPy: no reference table in the sandbox; a renumbering that keeps category/operand-ness/bijection and touches "
@@ -160,34 +165,37 @@ CHECKS = {
     ),
     "C19": dict(
         category="model_checking",
-        text="LineMapGen.tla enumerates {offset: line} mappings over gap classes (offset gaps needing 0-2 continuation entries; line gaps 1, 127..129, "
-             "255..257, 400+, and negative). Each is assigned as dict and as list to Code15/Code2/Code3(3.3, 3.6)/Code38/Code310 and frozen; the "
+        text="LineMapGen.tla enumerates {offset: line} mappings over gap classes (offset gaps needing 0-2 continuation entries; line gaps 0, 1, 127..129, "
+             "255..257, 400+, and negative; first entry at co_firstlineno or later). Each is assigned as dict and as list to Code15/Code2/Code3(3.3, 3.6)/Code38/Code310 and frozen; the "
              "reference reader machine of the type's era (LineTables.tla, validated against CPython 2.7/3.6/3.8/3.10 on the same bytes) decodes the "
              "produced table and must return the mapping; xdis's own findlinestarts on the frozen object is judged against the same bytes.",
         design_ref="DESIGN.md section 5 C19, spec S4",
-        note="Mappings start with (0, co_firstlineno); decreasing lines only for signed formats. Two recorded findings: unsigned encoder used for "
-             "signed-era types; Code310 encoder.",
+        note="Mappings start at offset 0; a repeated line is expected back without the repeat; decreasing lines only for signed formats. The encoders "
+             "were repaired in /repo (f8d9280, 5bf44f6); one recorded finding remains: Code3 used for 3.6/3.7 drops decreasing lines.",
         technique="TLC-enumerated mappings frozen by xdis; TLC trace validation of the frozen bytes with the reference line-table reader; CPython as second decoder",
     ),
     "C16": dict(
         category="model_checking",
         text="Spec S13 (CodeConv.tla): Fields(host), ClassFor(host) and the actions ToPortable / ToNative / Replace. Under every host 3.8-3.13 each "
              "native code object of the sampled standard-library modules is converted with codeType2Portable, back with to_native(), and copied "
-             "with replace(); TLC replays the three actions on the recorded field maps (the host's real attribute set: co_linetable and "
-             "co_exceptiontable included) and checks class, field preservation both ways, changed-copy and unchanged-original.",
+             "with replace(), the copy and once more the original converted back; TLC replays the four actions on the recorded field maps (the host's real attribute set: co_linetable and "
+             "co_exceptiontable included) and checks class, field preservation both ways, changed-copy and unchanged-original, and that nothing "
+             "remembered from the first to_native() comes back for the copy. Two equal code objects under different file names are among the inputs.",
         design_ref="DESIGN.md section 5 C16, spec S13",
         note="Field values compared through digests. Quick: 8 modules per host (about 500 code objects each); thorough: 70 modules.",
         technique="TLA+ conversion state machine; TLC trace validation of recorded conversions under every host",
     ),
     "C20": dict(
         category="model_checking",
-        text="Under every host 3.8-3.13, for 14 object kinds x 3 first_line values, xdis.std.get_instructions/findlabels/findlinestarts and the host's "
+        text="Under every host 3.8-3.13, for 15 object kinds x 4 first_line values (None, 0, 1, +1000) x the two entry points get_instructions and the Bytecode class "
+             "(findlabels/findlinestarts asked after the walk), xdis.std and the host's "
              "own dis are recorded on the same object and both judged by the same instance of the reference decoder BytecodeTrace.tla (opcode, operand, "
              "argval resolution, jump targets, labels, is_jump_target, starts_line with the first_line shift as a spec rule); acceptance vs TypeError "
              "must agree; module-level opmap/opname/has*/HAVE_ARGUMENT/EXTENDED_ARG are compared with dis. make_std_api(v) is judged on producer "
              "files of each version v under a foreign host.",
         design_ref="DESIGN.md section 5 C20, specs S3 S4",
-        note="stack_effect is C15. has* tables compared as sets. dis.dis text not compared. 3.11/3.12 get_instructions marks no handler targets (both sides).",
+        note="stack_effect is C15. has* tables compared as sets. dis.dis text not compared. 3.11/3.12 get_instructions marks no handler targets (both sides); "
+             "dis.Bytecode marks handler targets (3.13: also range ends), xdis the handler targets; xdis.std.findlinestarts is also judged by the line-table reader.",
         technique="TLC trace validation of xdis.std and of the host's dis against the same TLA+ reference decoder, per host and object kind",
     ),
     "C12": dict(
@@ -205,11 +213,13 @@ CHECKS = {
     "C18": dict(
         category="model_checking",
         text="Spec S10 (Session.tla): a process using xdis as a state machine over the shared tables with the public operations as actions; the design "
-             "properties are ResultsAreFunctions and TablesImmutable. TLC enumerates every history up to length 2 (quick) / 3 (thorough) over 18 "
+             "properties are ResultsAreFunctions and TablesImmutable. TLC enumerates every history up to length 2 (quick) / 3 (thorough) over 23 "
              "operations (loads of 1.5/2.7/3.8/3.12/3.13 files through both loader paths, disassemble_file in four formats, get_opcode, make_std_api, "
-             "marsh, a corrupt file, a late import of an opcode module) plus seeded longer histories; each is replayed in a forked child of a "
+             "marsh, Python-2 marshal bodies, one version under two variants disassembling through the API object, a Dropbox-2.5 file, a corrupt "
+             "file, a late import of an opcode module) plus seeded longer histories; each is replayed in a forked child of a "
              "pristine post-import process image and SessionTrace.tla checks every step: result digest = the digest of that operation alone in a "
-             "fresh process, digest of all opcode/magic tables, fields2copy and op_imports keys unchanged.",
+             "fresh process, digest of all opcode/magic tables and op_imports keys unchanged, and no entry that a fresh process holds in any "
+             "module- or class-level container of xdis rewritten or removed (growth is allowed).",
         design_ref="DESIGN.md section 5 C18, spec S10",
         note="Results compared through digests. Explicit remapping (remap_opcodes) is the excepted action and is not among the operations.",
         technique="TLC-enumerated operation histories replayed into forked processes; TLC trace validation of every step against the functional model",
@@ -231,12 +241,13 @@ CHECKS = {
         text="Spec S11 (Faults.tla): the fault actions Truncate(k), Mutate(i, b), Insert, Delete, SetLen on base files of four version classes (and small "
              "real files in the thorough tier); TLC enumerates every single fault within the byte classes (FLAG_REF toggle, 0x00/0x7F/0xFF, marshal "
              "type codes, adversarial 32-bit counts) and exports the faulty files. Each is loaded by load_module in a forked child under a 1 GiB "
-             "address-space limit, a 5 s alarm and an audit hook (exec/compile/import from the file, writes, process and socket events). The strict "
+             "address-space limit, a 30 s alarm (20 s counts as not prompt) and an audit hook (exec/compile/import from the file, writes, process and socket events). The strict "
              "reference reader (MarshalTrace.tla free-running) gives a verdict ok(v)/malformed for faults inside the payload; outcome must be the "
-             "7-tuple or ImportError, never another exception, timeout, memory error, or forbidden event; on the portable path a file the reader "
-             "still accepts must yield v.",
+             "7-tuple or ImportError, never another exception, timeout, memory error, or forbidden event. The verdict is the outcome of load_module alone (the report is "
+             "written when it returns); a worker death counts only if it reproduces twice alone.",
         design_ref="DESIGN.md section 5 C11, spec S11",
-        note="Memory and time are measured, not modelled. RecursionError inside ImportError is accepted and counted. One recorded finding (native fast path allocation).",
+        note="Memory and time are measured, not modelled. RecursionError inside ImportError is accepted and counted. The value of a damaged but still "
+             "readable stream is counted in the evidence, not judged (C01/C10 territory). One recorded finding (native fast path allocation).",
         technique="TLC-enumerated single faults replayed into load_module under resource limits and an audit hook; strict verdict from the TLA+ reference reader",
     ),
 }
